@@ -1,10 +1,11 @@
 (* Extraction of the executable model. Only ExtrOcamlBasic is used: bool, option, unit,
    list, prod, sumbool, sumor map to the OCaml types; andb/orb are inlined.
    nat, N, Z, positive stay the Coq inductives. *)
-From Coq Require Import ExtrOcamlBasic ZArith NArith List.
+From Coq Require Import ExtrOcamlBasic ZArith NArith List FMapPositive.
 From Clemens Require Import Base.Res Base.Word Base.Bytes Search.Time Search.TT.
 From Clemens Require Import Pos.Types Att.Attacks Pos.Position Pos.Fen.
-From Clemens Require Import Eval.Eval.
+From Clemens Require Import Eval.Eval Search.Ordering Search.Negamax.
+From Clemens Require Import Uci.ParseGo Uci.Input.
 From Clemens Require Rules.Fide Rules.SpecFen.
 From ClemensGen Require Import GoConsts.
 
@@ -42,6 +43,27 @@ Definition m_see := see go_econsts.
 Definition m_contempt := contempt go_econsts.
 Definition m_is_endgame := is_endgame go_econsts.
 
+Definition go_oconsts : oconsts :=
+  {| oc_pv := mo_pv_score; oc_tt := mo_tt_score; oc_killer := mo_killer_score; oc_promo := mo_promotion_score;
+     oc_counter_bonus := mo_counter_bonus; oc_mvv_lva := mo_mvv_lva |}.
+Definition go_sconsts : sconsts :=
+  {| sc_widen := se_widen_window; sc_max_depth := se_max_depth; sc_q_max_depth := se_quiescence_max_depth;
+     sc_fut_depth := se_futility_depth; sc_fut_margin := se_futility_margin;
+     sc_static_null_margin := se_static_null_margin; sc_tt_buckets := tt_numberOfBuckets;
+     sc_tt_bucket_size := N.to_nat tt_bucketSize; sc_hist_size := se_history_size |}.
+Definition m_score_moves := score_moves go_oconsts.
+Definition m_search := search go_keys go_econsts go_oconsts go_sconsts.
+Definition m_search_root := search_root go_keys go_econsts go_oconsts go_sconsts.
+Definition m_negamax := negamax go_keys go_econsts go_oconsts go_sconsts.
+Definition m_quiescence := quiescence go_keys go_econsts go_oconsts go_sconsts.
+Definition m_init_sst (t : tt_state) (c : ecache) (hist : list N) (cancel : option N) : sst :=
+  {| s_tt := t; s_cache := c; s_nodes := 0; s_killers := PositiveMap.empty _; s_history := PositiveMap.empty _;
+     s_counter := PositiveMap.empty _; s_hist := hist; s_pv := nil; s_out := nil; s_polls := 0; s_cancel := cancel |}.
+Definition m_tt_init : tt_state := tt_init (N.to_nat tt_bucketSize).
+
+Definition m_handle_line := handle_line validFirstInputToken.
+Definition m_prepare_input := prepare_input validFirstInputToken.
+
 (* C14: the transposition table with the dimensions and the mate bound of the Go build *)
 Definition m_tt_bucket_size : nat := N.to_nat tt_bucketSize.
 Definition m_tt_index : N -> N := tt_index tt_numberOfBuckets.
@@ -57,6 +79,8 @@ Extraction "clemens_model.ml"
   rook_attacks bishop_attacks queen_attacks rook_walk bishop_walk rook_mask bishop_mask
   knight_attacks king_attacks pawn_attacks pushes_by_square all_subsets magic_index
   popcount lsb bits
+  parse_go parse_go_unrepaired event_text simple_token m_handle_line m_prepare_input
+  m_score_moves sort_index visit_order m_search m_search_root m_negamax m_quiescence m_init_sst m_tt_init
   m_eval_raw m_eval_parts m_is_draw m_eval_cached m_eval_cached_unrepaired m_see m_contempt m_is_endgame
   Rules.SpecFen.read_fen Rules.SpecFen.show_fen Rules.SpecFen.show_move Rules.SpecFen.read_move
   Rules.Fide.legal_moves_fast Rules.Fide.legal_moves Rules.Fide.apply Rules.Fide.perft Rules.Fide.in_check
